@@ -189,6 +189,31 @@ def snapshot_case(seed, i, engine):
     return core.Case("engine", lines, {"engine": engine, "snapshot": True})
 
 
+def special_oracle(c):
+    out = c.impl
+    kind = c.meta["special"]
+    if any(o.startswith("CRASHED") or o == "TIMEOUT" for o in out):
+        return ("the engine process died: %s" % out[-1][:200], "engine-crashed")
+    if kind == "ctx" and len(out) >= 5:
+        present = sum(1 for o in out[2:5] if o not in ("get nf", "get err"))
+        if present not in (0, 3):
+            return ("%s: a batch committed under a dying context was applied in part (%d of 3 keys): %s" % (c.lines[1], present, out[1:5]), "batch-not-atomic")
+        if out[1] == "batch ok" and present != 3:
+            return ("%s answered ok but %d of 3 keys are visible" % (c.lines[1], present), "batch-not-atomic")
+        if out[1] != "batch ok" and out[1] != "batch err uncertain" and present != 0:
+            return ("%s answered the definite error `%s` although the batch was applied: %s" % (c.lines[1], out[1], out[2:5]), "definite-error-but-applied")
+    if kind == "getabort" and len(out) >= 6:
+        if out[3] == "batch ok" or out[4] != "get 6669727374" or (out[3] != "batch ok" and out[5] != "get nf"):
+            return ("put-if-absent on an EXISTING key whose existence read failed: %s; afterwards key=%s other=%s "
+                    "(must fail and change nothing)" % (out[3], out[4], out[5]), "put-if-absent-over-existing-key")
+    if kind == "scan2" and len(out) >= 3:
+        o = out[2]
+        n = 0 if o in ("iter err", "iter -") else len(o.split(" ", 1)[1].split(","))
+        if o != "iter err" and n != 600:
+            return ("an iteration whose second fetch failed ended WITHOUT an error after %d of 600 keys" % n, "iterator-partial-without-error")
+    return None
+
+
 def check(rep, tier, seed):
     n, n_ops = (60, 80) if tier == "quick" else (6000, 200)
     cases = [gen_case(seed, i, ENGINES[i % len(ENGINES)], n_ops) for i in range(n)]
@@ -198,9 +223,27 @@ def check(rep, tier, seed):
     for eng, n_big in [("memkv", 2000), ("badger", 120000), ("metrics-badger", 120000)] + ([("tikv", 3000)] if tier != "quick" else []):
         cases.append(core.Case("engine", ["cfg engine=%s" % eng, "batch put:6b2f30:6f6c64", "bigbatch %d 6b2f" % n_big, "get 6b2f30", "dump"],
                                {"engine": eng, "snapshot": True, "big": True}))
+    # atomicity under a caller that goes away: the context handed to Commit is cancelled / past its deadline /
+    # dies after the first liveness poll; RPC-level faults between the TiKV client and the (mock) cluster
+    special = []
+    for eng in ["memkv", "badger", "tikv", "metrics-badger", "metrics-memkv"]:
+        for kind in ("cancelled", "flaky", "deadline"):
+            special.append(core.Case("engine", ["cfg engine=%s" % eng, "batch put:6131:31 put:6132:32 put:6133:33 ctx=%s" % kind,
+                                                "get 6131", "get 6132", "get 6133"], {"engine": eng, "special": "ctx"}, compare=lambda op: False))
+    special.append(core.Case("engine", ["cfg engine=tikv rpcfault=getabort", "batch put:6b3031:6669727374", "get 6b3031",
+                                        "batch pine:6b3031:7468697264 put:6f74686572:78", "get 6b3031", "get 6f74686572"],
+                             {"engine": "tikv", "special": "getabort"}, compare=lambda op: False))
+    special.append(core.Case("engine", ["cfg engine=tikv rpcfault=scan2", "load 600 6b2f 76", "iter 6b2f 6b30 0"],
+                             {"engine": "tikv", "special": "scan2"}, compare=lambda op: False))
+    cases += special
     core.run_cases(cases)
     for c in cases:
         rep.count_case(c)
+        if c.meta.get("special"):
+            hit = special_oracle(c)
+            if hit and core.handle_oracle_hit(rep, "C11", hit[1], c, hit[0], hit[1]):
+                return
+            continue
         hit = None if c.meta.get("snapshot") else oracle(c)
         if c.meta.get("big") and c.diff() is not None:
             hit = ("a batch that reported an error left part of itself behind: %s (all-or-nothing: %s)" % (c.impl[c.diff()], c.model[c.diff()]), "batch-not-atomic")
